@@ -174,6 +174,10 @@ Example C07_ex_extents :
   block_get 100 d 19 = Ok 59 /\ block_get 100 d 20 = Err 7.
 Proof. cbv zeta. repeat split; try (vm_compute; intros; discriminate); vm_compute; reflexivity. Qed.
 
+Example C07_ex_machine :
+  C07_full_statement N toy_step (fun _ => True) /\ run N toy_step 2 3 = Ok 1 /\ run N toy_step 3 3 = Err 1.
+Proof. exact toy_run_example. Qed.
+
 Example C07_ex_boundaries : forall powf,
   num_binop_res powf OpDiv (Int i32_min) (Int (-1)) = Ok None /\
   num_binop_res powf OpRem (Int 5) (Int 0) = Ok None /\
